@@ -179,6 +179,19 @@ SCENARIOS = {
                      {"do": "await", "thread": "A", "point": "wuwx.afterread"}, {"do": "run", "line": 'wtx c0 k exp=0 cas=0 x._sync={"t":1} x.usr={"q":9}'},
                      {"do": "release", "thread": "A"}, {"do": "join", "thread": "A"}],
              observe=["rb c0 k " + N]),
+        # calls overtaken between what they read before their transaction and the transaction itself (txn.enter: before the bucket mutex)
+        dict(name="set-preserving-expiry-overtaken-by-a-set-with-expiry", setup=kv_setup(),
+             threads={"A": 'set c0 k exp=0 pe=1 raw=0 v={"p":1}'},
+             script=[{"do": "park", "thread": "A", "point": "txn.enter"}, {"do": "spawn", "thread": "A", "line": 'set c0 k exp=0 pe=1 raw=0 v={"p":1}'},
+                     {"do": "await", "thread": "A", "point": "txn.enter"}, {"do": "run", "line": 'set c0 k exp=1800000500 raw=0 v={"s":2}'},
+                     {"do": "release", "thread": "A"}, {"do": "join", "thread": "A"}],
+             observe=["rb c0 k " + N]),
+        dict(name="two-setwithmeta-on-the-same-version", setup=kv_setup(),
+             threads={"A": 'swm c0 k old=2097152 new=5000001 exp=0 v={"m":1} dt=1'},
+             script=[{"do": "park", "thread": "A", "point": "txn.enter"}, {"do": "spawn", "thread": "A", "line": 'swm c0 k old=2097152 new=5000001 exp=0 v={"m":1} dt=1'},
+                     {"do": "await", "thread": "A", "point": "txn.enter"}, {"do": "run", "line": 'swm c0 k old=2097152 new=5000002 exp=0 v={"m":2} dt=1'},
+                     {"do": "release", "thread": "A"}, {"do": "join", "thread": "A"}],
+             observe=["rb c0 k " + N]),
         dict(name="write-in-transaction-vs-read", setup=kv_setup(), threads={"A": 'set c0 k exp=0 raw=0 v={"s":9}'},
              script=[{"do": "park", "thread": "A", "point": "txn.precommit"}, {"do": "spawn", "thread": "A", "line": 'set c0 k exp=0 raw=0 v={"s":9}'},
                      {"do": "await", "thread": "A", "point": "txn.precommit"}, {"do": "release", "thread": "A"}, {"do": "join", "thread": "A"}],
@@ -232,6 +245,18 @@ SCENARIOS = {
                      {"do": "release", "thread": "D"}, {"do": "join", "thread": "S"}],
              observe=["feedstat f0"],
              expect=[(0, r"afterterm=[01] afterdone=0 done=true", "after its terminator was closed a live feed delivered more than the one event already pulled, or did not end")]),
+        # a checkpointed feed whose final checkpoint write cannot succeed (the bucket is being deleted / its collection dropped) still ends properly
+        dict(name="checkpointed-feed-ended-by-CloseAndDelete-closes-its-done-channel", kind="mem",
+             setup=["feed f0 c0 bf=none prefix=cp", "feed f1 c0 bf=none", "clock t=2097152", 'set c0 k0 exp=0 raw=0 v={"w":0}', "drain f0", "drain f1"],
+             threads={}, script=[{"do": "run", "line": "cadh h0"}, {"do": "sleep", "ms": 150}],
+             observe=["feedstat f0", "feedstat f1"],
+             expect=[(0, r"done=true", "a checkpointed feed ended by CloseAndDelete never closed its done channel"),
+                     (1, r"done=true", "a plain feed ended by CloseAndDelete never closed its done channel")]),
+        dict(name="checkpointed-feed-ended-by-DropDataStore-closes-its-done-channel", kind="mem",
+             setup=["feed f0 c1 bf=none prefix=cp", "clock t=2097152", 'set c1 k0 exp=0 raw=0 v={"w":0}', "drain f0"],
+             threads={}, script=[{"do": "run", "line": "dropcoll c1 via=h0"}, {"do": "sleep", "ms": 150}],
+             observe=["feedstat f0"],
+             expect=[(0, r"done=true", "a checkpointed feed ended by DropDataStore never closed its done channel")]),
     ],
     "C15": [
         dict(name="write-in-the-same-clock-tick-lands-while-a-dump-run-is-delivering", kind="mem",
@@ -295,6 +320,7 @@ def run_property(pid, log):
 
 # C18 (sub-document writes preserve the other properties, also against a concurrent writer) reuses the sub-document schedules of C03
 SCENARIOS["C18"] = [sc for sc in SCENARIOS["C03"] if sc["name"].startswith("subdoc")]
+SCENARIOS["C02"] = [sc for sc in SCENARIOS["C03"] if sc["name"] == "two-setwithmeta-on-the-same-version"]
 
 
 # C10: what a successful call stored is visible to any later open - also after calls that were refused in between
